@@ -3,7 +3,7 @@
    carries what the implementation did (returned error class, signalled pods, API calls, result) and the content of
    Queue.items after the op. Each step is validated from the implementation's own queue (the observed queue
    after the previous op), so one divergence does not cascade. *)
-From KV Require Import C10.Model.
+From KV Require Import C10.Model C10.Split C10.Node.
 Open Scope string_scope.
 Open Scope Z_scope.
 Open Scope list_scope.
@@ -21,7 +21,18 @@ Inductive iop :=
 | IDrain (now : Z) (dl : option Z) (idx : list Z) (err : derr) (events : list key) (qafter : queue)
 | IDrainFail (err : derr) (events : list key) (qafter : queue)
 | IRec (now : Z) (idx : Z) (api : apires) (node_ok : bool) (a : option act) (res : rres) (qafter : queue)
-| IRestart (qafter : queue).
+| IRestart (qafter : queue)
+(* one reconcile of the deleting node by the real termination controller: NodeClaim present?, its termination
+   timestamp annotation, its Drained condition before, clock, listed pods [observed: result class, Drained
+   condition after, signalled pods, queue after] *)
+| INode (has_claim deleting : bool) (a : ann) (c : dcond) (now : Z) (idx : list Z)
+        (res : nres) (cafter : dcond) (evs : list key) (qafter : queue)
+(* one reconcile with a drain pass inside its unlocked window: the reconcile of pod idx reads its queue entry, then
+   a complete Drain pass (dnow, ddl, didx) runs [observed: derr, devs, queue qmid], then the reconcile continues at
+   clock anow with API answer api [observed: a, res] and the queue ends as qafter *)
+| IRace (idx : Z) (api : apires) (node_ok : bool)
+        (dnow : Z) (ddl : option Z) (didx : list Z) (derr : derr) (devs : list key) (qmid : queue)
+        (anow : Z) (a : option act) (res : rres) (qafter : queue).
 
 Record case := Case { c_pods : list pod; c_ops : list iop }.
 
@@ -59,6 +70,15 @@ Fixpoint keys_eqb (a b : list key) : bool :=
   | _, _ => false
   end.
 
+Definition dcond_eqb (a b : dcond) : bool :=
+  match a, b with
+  | CAbsent, CAbsent | CTrue, CTrue => true
+  | CUnknown s, CUnknown s' => s =? s'
+  | _, _ => false
+  end.
+Definition nres_eqb (a b : nres) : bool :=
+  match a, b with NError, NError | NRequeue, NRequeue | NDrained, NDrained => true | _, _ => false end.
+
 Definition tag (b : bool) (t : string) : list string := if b then [] else [t].
 
 (* one step: the op as the model sees it, the implementation's output and queue after *)
@@ -85,6 +105,54 @@ Definition check_step (tbl : list pod) (qo : queue) (o : iop) : list string * qu
        tag (rres_eqb (r_res r) res) "corr:reconcile-result" ++
        tag (queue_eqb qm qa) "corr:reconcile-queue" ++
        tag (entry_ok_b (mkE qo (ORec now p api nok) (OutR (mkR a res)) qa)) "oracle:reconcile", qa)
+  | IRace i api nok dnow ddl didx derr devs qmid anow a res qa =>
+      let p := lookup tbl i in
+      let pods := map (lookup tbl) didx in
+      let r := qget (pkey p) qo in                       (* Read *)
+      let '(q1, d) := drain qo dnow ddl pods in          (* the pass in the window *)
+      let '(ro, c) := decide r anow p api nok in         (* Act, from the value read *)
+      let qm := complete q1 p c in                       (* Complete *)
+      let qread := match r with Some dl => [(pkey p, dl)] | None => [] end in
+      (tag (valid_idx tbl i && forallb (valid_idx tbl) didx) "corr:bad-index" ++
+       tag (derr_eqb (d_err d) derr) "corr:race-drain-error" ++
+       tag (keys_eqb (ksort (d_events d)) devs) "corr:race-drain-signalled" ++
+       tag (queue_eqb q1 qmid) "corr:race-drain-queue" ++
+       tag (act_eqb (r_act ro) a) "corr:race-action" ++
+       tag (rres_eqb (r_res ro) res) "corr:race-result" ++
+       tag (queue_eqb qm qa) "corr:race-queue" ++
+       tag (entry_ok_b (mkE qo (ODrain dnow ddl pods) (OutD (mkD derr devs)) qmid)) "oracle:race-drain" ++
+       (* the action is justified by the value read (what holds in every interleaving) *)
+       tag (entry_ok_b (mkE qread (ORec anow p api nok) (OutR (mkR a res)) [])) "oracle:race-action" ++
+       (* the action honours the deadline in force when it is taken (refuted: Split.split_deadline_never_later_refuted_l) *)
+       tag (match r, qget (pkey p) qmid with
+            | Some _, Some (Some t') =>
+                if delete_due_b anow p t'
+                then match a with Some (Delete g) => g * sec <=? Z.max (t' - anow) sec | _ => false end
+                else true
+            | _, _ => true
+            end) "oracle:race-stale-deadline", qa)
+  | INode hc del a c now idx res cafter evs qa =>
+      let pods := map (lookup tbl) idx in
+      let '(qm, cm, rm, dm) := node_pass qo hc del a c now pods in
+      (tag (forallb (valid_idx tbl) idx) "corr:bad-index" ++
+       tag (nres_eqb rm res) "corr:node-result" ++
+       tag (dcond_eqb cm cafter) "corr:node-drained-condition" ++
+       tag (keys_eqb (ksort (match dm with Some d => d_events d | None => [] end)) evs) "corr:node-signalled" ++
+       tag (queue_eqb qm qa) "corr:node-queue" ++
+       (* the queue changed as under a drain pass with the NodeClaim's termination timestamp (no claim / no
+          annotation: no deadline); unparsable annotation: the queue is untouched *)
+       tag (match claim_deadline hc a with
+            | Some dl =>
+                let n := Z.of_nat (List.length (filter (waiting_b now) pods)) in
+                entry_ok_b (mkE qo (ODrain now dl pods) (OutD (mkD (if (n =? 0) then DOk else DWaiting n) evs)) qa)
+            | None => queue_eqb qa qo && nres_eqb res NError
+            end) "oracle:node-deadline" ++
+       (* Drained only when nothing is waiting and MinDrainTime has passed *)
+       tag (match res with
+            | NDrained => forallb (fun p => negb (waiting_b now p)) pods &&
+                          (negb hc || match c with CTrue => true | CUnknown s => min_drain <=? now - s | CAbsent => false end)
+            | _ => true
+            end) "oracle:node-drained-early", qa)
   | IRestart qa =>
       (tag (queue_eqb (fst (step qo ORestart)) qa) "corr:restart-queue" ++
        tag (entry_ok_b (mkE qo ORestart OutNone qa)) "oracle:restart", qa)
